@@ -69,10 +69,50 @@ package enc
 //@ func EscapeIdent
 //@   props C11
 //@   overflow
-//@   ensures forall(k, 0, len(s), intail(s[k])) ==> result == s
-//@   ensures exists(k, 0, len(s), !intail(s[k])) ==> isQuotedEsc(result, s)
+//@   ensures (forall(k, 0, len(s), intail(s[k])) && !(len(s) > 0 && '0' <= s[0] && s[0] <= '9')) ==> result == s
+//@   ensures (exists(k, 0, len(s), !intail(s[k])) || (len(s) > 0 && '0' <= s[0] && s[0] <= '9')) ==> isQuotedEsc(result, s)
 //@   loop 0: invariant 0 <= i && i <= len(s) && extra == cnt(s, quotedPred(), i)
-//@   loop 0: invariant !replace ==> forall(k, 0, i, intail(s[k]))
-//@   loop 0: invariant replace ==> exists(k, 0, i, !intail(s[k]))
+//@   loop 0: invariant !replace ==> forall(k, 0, i, intail(s[k])) && !(len(s) > 0 && '0' <= s[0] && s[0] <= '9')
+//@   loop 0: invariant replace ==> exists(k, 0, i, !intail(s[k])) || (len(s) > 0 && '0' <= s[0] && s[0] <= '9')
 //@   loop 1: invariant 0 <= i && i <= len(s) && j == i + cnt(s, quotedPred(), i) && len(buf) == len(s) + cnt(s, quotedPred(), len(s))
 //@   loop 1: invariant forall(k, 0, i, encAt(string(buf), k + cnt(s, quotedPred(), k), s[k], inquoted(s[k])))
+
+//@ # ---- LLVM's reading of identifier tokens (assumption A7: transcription of LLLexer) ----
+//@ # after the sigil, a name is either a quoted string or [-a-zA-Z$._][-a-zA-Z$._0-9]*; [0-9]+ is an unnamed ID
+//@ spec inhead(b byte) bool = intail(b) && !('0' <= b && b <= '9')
+//@ spec bareName(body string) bool = len(body) >= 1 && inhead(body[0]) && forall(k, 0, len(body), intail(body[k]))
+//@ # lexName(body, name): LLVM and the library's parser read the text after the sigil as the name `name`
+//@ spec lexName(body string, name string) bool = (bareName(body) && body == name) || isQuotedEsc(body, name)
+
+//@ # a string all of whose bytes are admitted needs no extra bytes
+//@ manual lemma cntValid: forall(s string, v bytepred, n int, cnt(s, v, n) > 0 ==> exists(k, 0, n, !v(s[k])), pattern(cnt(s, v, n)))
+
+//@ func GlobalName
+//@   props C11
+//@   uses cntValid
+//@   requires len(name) >= 1
+//@   ensures len(result) >= 2 && result[0] == '@' && lexName(result[1:len(result)], name)
+//@ func LocalName
+//@   props C11
+//@   uses cntValid
+//@   requires len(name) >= 1
+//@   ensures len(result) >= 2 && result[0] == '%' && lexName(result[1:len(result)], name)
+//@ func ComdatName
+//@   props C11
+//@   uses cntValid
+//@   requires len(name) >= 1
+//@   ensures len(result) >= 2 && result[0] == '$' && lexName(result[1:len(result)], name)
+//@ func LabelName
+//@   props C11
+//@   uses cntValid
+//@   requires len(name) >= 1
+//@   ensures len(result) >= 2 && result[len(result)-1] == ':' && lexName(result[0:len(result)-1], name)
+//@ func isAllDecimal
+//@   props C11
+//@   ensures result == alldigits(s)
+//@   loop 0: invariant 0 <= i && i <= len(s) && len(s) >= 1 && forall(k, 0, i, '0' <= s[k] && s[k] <= '9')
+//@ # numeric type names are type IDs (%2); every other type name is lexed like a local name
+//@ func TypeName
+//@   props C11
+//@   requires len(name) >= 1
+//@   ensures len(result) >= 2 && result[0] == '%' && ((alldigits(name) && result[1:len(result)] == name) || (!alldigits(name) && lexName(result[1:len(result)], name)))
